@@ -6,6 +6,9 @@ package traefikoidc_test
 //   C09: keyless analysis of every emitted value, and a tamper matrix (a non-authentic value reads like an absent cookie).
 
 import (
+	"crypto/sha256"
+	"crypto/cipher"
+	"crypto/aes"
 	"bytes"
 	"compress/gzip"
 	"encoding/base64"
@@ -144,6 +147,14 @@ func (s *sessRun) randomToken(rng *mrand.Rand) string {
 		rng.Read(b)
 		return base64.StdEncoding.EncodeToString(b)
 	case 10:
+		if rng.Intn(3) == 0 { // beyond every power-of-two buffer size one might think of: 33-70 KB of text
+			n := []int{32767, 32768, 32769, 40000, 65535, 65536, 65537, 70000}[rng.Intn(8)]
+			b := make([]byte, n)
+			for i := range b {
+				b[i] = alnum[rng.Intn(len(alnum))]
+			}
+			return string(b)
+		}
 		return textWithCompressedLen(rng, 10000+4*rng.Intn(8000), alnum) // tens of kilobytes
 	default:
 		n := 300 + rng.Intn(1500)
@@ -190,6 +201,29 @@ func keylessCheck(prop, name, value string, secrets []string, replay func() inte
 				if gob.NewDecoder(bytes.NewReader(body)).Decode(&m) == nil && len(m) > 0 {
 					T.oracle(prop, "cookie content is readable without the key (gob-decodable)", M{"cookie": name, "keys": len(m)}, replay())
 				}
+				// decryption with every block key a party WITHOUT the deployment's key can compute: the code's own derivation applied
+				// to keys of its choosing, and digests / prefixes of those keys and of public constants (the MAC is simply skipped)
+				for _, bk := range publicBlockKeys() {
+					if blk, err := aes.NewCipher(bk); err == nil && len(body) > blk.BlockSize() {
+						iv, ct := body[:blk.BlockSize()], body[blk.BlockSize():]
+						pt := make([]byte, len(ct))
+						cipher.NewCTR(blk, iv).XORKeyStream(pt, ct)
+						layers = append(layers, string(pt))
+						var m2 map[interface{}]interface{}
+						if gob.NewDecoder(bytes.NewReader(pt)).Decode(&m2) == nil && len(m2) > 0 {
+							T.oracle(prop, "cookie content decrypts without the deployment's key (block key computable from public information)", M{"cookie": name, "keys": len(m2)}, replay())
+						}
+						for _, tokenish := range findBase64Runs(string(pt)) {
+							if raw, err := base64.StdEncoding.DecodeString(tokenish); err == nil {
+								if gz, err := gzip.NewReader(bytes.NewReader(raw)); err == nil {
+									var out bytes.Buffer
+									out.ReadFrom(gz)
+									layers = append(layers, out.String())
+								}
+							}
+						}
+					}
+				}
 				// decompression of anything that looks like the compressed token text
 				for _, tokenish := range findBase64Runs(string(body)) {
 					if raw, err := base64.StdEncoding.DecodeString(tokenish); err == nil {
@@ -221,6 +255,35 @@ func keylessCheck(prop, name, value string, secrets []string, replay func() inte
 		}
 	}
 	T.stat("keyless.values-analysed")
+}
+
+var publicKeysOnce [][]byte
+
+// publicBlockKeys: AES keys computable without the deployment's session key
+func publicBlockKeys() [][]byte {
+	if publicKeysOnce != nil {
+		return publicKeysOnce
+	}
+	var out [][]byte
+	add := func(b []byte) {
+		for _, n := range []int{16, 24, 32} {
+			if len(b) >= n {
+				out = append(out, append([]byte{}, b[:n]...))
+			}
+		}
+	}
+	cands := append([]string{"", "traefikoidc", "0123456789abcdef0123456789abcdef"}, otherSessKeys[0], otherSessKeys[3], otherSessKeys[4])
+	for _, k := range cands {
+		if bk := deriveBlockKeyOf(k); bk != nil {
+			out = append(out, bk)
+		}
+		h := sha256.Sum256([]byte(k))
+		out = append(out, h[:])
+		add([]byte(k))
+	}
+	out = append(out, make([]byte, 32))
+	publicKeysOnce = out
+	return out
 }
 
 func findBase64Runs(s string) []string {
